@@ -581,6 +581,7 @@ func TestC03(t *testing.T) {
 		}
 		_ = a.Stop()
 	}
+	c03Edges(r)
 	r.Require("expected_match", r.Counter("expected_match"), int64(nRules))
 	r.Require("expected_no_match", r.Counter("expected_no_match"), int64(nRules))
 	r.End()
